@@ -63,7 +63,9 @@ TLC_JAR = "/opt/veriftools/tla/tla2tools.jar:/opt/veriftools/tla/CommunityModule
 
 
 def tlc(module, cfg, meta, workers=1, env=None, timeout=900, extra=None, java_opts=None, heap="4g"):
-    cmd = ["java", "-XX:+UseParallelGC", "-Xss1g", "-Xmx" + heap]
+    jtmp = meta + "_jtmp"      # TLC unpacks its module jars per run; keep that out of /tmp
+    os.makedirs(jtmp, exist_ok=True)
+    cmd = ["java", "-XX:+UseParallelGC", "-Xss1g", "-Xmx" + heap, "-Djava.io.tmpdir=" + jtmp]
     if java_opts:
         cmd += java_opts
     cmd += ["-cp", TLC_JAR, "tlc2.TLC", "-workers", str(workers), "-metadir", meta, "-cleanup",
@@ -71,7 +73,10 @@ def tlc(module, cfg, meta, workers=1, env=None, timeout=900, extra=None, java_op
     if extra:
         cmd += extra
     cmd += [module]
-    rc, out = sh(cmd, timeout, cwd=SPEC, env=env, check=False)
+    try:
+        rc, out = sh(cmd, timeout, cwd=SPEC, env=env, check=False)
+    finally:
+        shutil.rmtree(jtmp, ignore_errors=True)
     return rc, out
 
 
